@@ -49,7 +49,8 @@ def thresholds(rng, l):
     for _, i in l:
         acc += i
         cum.append(acc)
-    out = [Fraction(0), Fraction(-1, 4), l[0][1] / 2, cum[-1], cum[-1] + Fraction(1, 8), cum[-1] * 2]
+    # (offsets are multiplicative: an additive 1/8 is not representable next to a total of 2^100)
+    out = [Fraction(0), Fraction(-1, 4), l[0][1] / 2, cum[-1], cum[-1] * Fraction(9, 8), cum[-1] * 2]
     for j in rng.sample(range(len(cum)), min(3, len(cum))):
         out.append(cum[j])                       # exactly on a representable cumulative sum
         nxt = cum[j + 1] if j + 1 < len(cum) else cum[j] + Fraction(1, 16)
@@ -79,6 +80,12 @@ def gen_cases(r: Run):
     for li in range(nlists):
         n = rng.choice([1, 2, 3, 4, 5, 8, 13, 21, 34, 64]) if li % 3 else rng.randint(1, 64)
         l = gen_list(rng, n, normalised=(li % 2 == 0))
+        if li % 10 in (7, 9):
+            # the same shapes at extreme magnitudes (a positive total far below f64::EPSILON, or astronomically large):
+            # "every non-empty pattern with positive total intensity" — powers of two keep every value exact
+            k = Fraction(1, 2 ** 70) if li % 10 == 7 else Fraction(2 ** 120)
+            l = [(m, i * k) for m, i in l]
+        scaled = li % 10 in (7, 9)
         # the origin is a field of its own: only sometimes the first peak's m/z
         origin = l[0][0] if li % 3 == 0 else Fraction(rng.randint(50 * 64, 3000 * 64), 64)
         is_norm = sum(i for _, i in l) == 1
@@ -97,7 +104,7 @@ def gen_cases(r: Run):
             # sitting exactly on a cumulative sum is decided exactly on both sides
             add("incr", [t / max(Fraction(1), sum(i for _, i in l))], exact=is_norm)
         its = sorted(set(i for _, i in l))
-        igs = [Fraction(0), its[0], its[-1], its[-1] + Fraction(1, 1024), its[len(its) // 2],
+        igs = [Fraction(0), its[0], its[-1], its[-1] * Fraction(1025, 1024), its[len(its) // 2],
                (its[0] + its[-1]) / 2, Fraction(-1)]
         for t in igs:
             add("ignore", [t])
@@ -127,6 +134,8 @@ def gen_cases(r: Run):
         if li % 10 == 0:
             add("slice", [Fraction(b + 1), Fraction(a)])       # bad range: panic
             add("slice", [Fraction(0), Fraction(n + 1)])
+        if scaled:
+            continue   # the equality tolerance is absolute: the additive perturbations below are not representable at 2^120
         # equality pool: the list, its prefixes, the empty pattern, perturbed copies
         pool = [l, l[:-1], l[: max(0, n // 2)], [],
                 [(m + Fraction(1, 4096), i) for m, i in l],
